@@ -88,6 +88,69 @@ func init() {
 		if !ok {
 			sb.WriteString(untranslatable("groupColors"))
 		}
+		// the array separator of {@}, the escape byte and code terminator of StrLen, the two constants of
+		// the default-output branch of `rare filter`
+		if n, ok := IntLit(c.Var("pkg/expressions/stage.go", "ArraySeparator")); ok {
+			fmt.Fprintf(&sb, "def arraySeparator : Nat := %d\n", n)
+		} else {
+			sb.WriteString(untranslatable("arraySeparator"))
+		}
+		if n, ok := IntLit(c.Var(rel, "escapeRune")); ok {
+			fmt.Fprintf(&sb, "def escapeRune : Nat := %d\n", n)
+		} else {
+			sb.WriteString(untranslatable("escapeRune"))
+		}
+		codeEnd := int64(-1)
+		if fd := c.Func(rel, "StrLen"); fd != nil {
+			ast.Inspect(fd, func(n ast.Node) bool {
+				if be, ok := n.(*ast.BinaryExpr); ok && be.Op == token.EQL {
+					if bl, ok := be.Y.(*ast.BasicLit); ok && bl.Kind == token.CHAR {
+						if v, ok := IntLit(bl); ok {
+							codeEnd = v
+						}
+					}
+				}
+				return true
+			})
+		}
+		if codeEnd >= 0 {
+			fmt.Fprintf(&sb, "def codeEnd : Nat := %d\n", codeEnd)
+		} else {
+			sb.WriteString(untranslatable("codeEnd"))
+		}
+		whole, skip := int64(-1), int64(-1)
+		isIndices := func(e ast.Expr) bool {
+			se, ok := e.(*ast.SelectorExpr)
+			return ok && se.Sel.Name == "Indices"
+		}
+		if fd := c.Func("cmd/filter.go", "filterFunction"); fd != nil {
+			ast.Inspect(fd, func(n ast.Node) bool {
+				switch v := n.(type) {
+				case *ast.BinaryExpr:
+					if call, ok := v.X.(*ast.CallExpr); ok && v.Op == token.EQL && len(call.Args) == 1 && isIndices(call.Args[0]) {
+						if id, ok := call.Fun.(*ast.Ident); ok && id.Name == "len" {
+							if k, ok := IntLit(v.Y); ok {
+								whole = k
+							}
+						}
+					}
+				case *ast.SliceExpr:
+					if isIndices(v.X) && v.Low != nil && v.High == nil {
+						if k, ok := IntLit(v.Low); ok {
+							skip = k
+						}
+					}
+				}
+				return true
+			})
+		}
+		if whole >= 0 && skip >= 0 {
+			fmt.Fprintf(&sb, "def filterWholeLen : Nat := %d\ndef filterSkip : Nat := %d\n", whole, skip)
+		} else {
+			sb.WriteString(untranslatable("filterWholeLen"))
+		}
+		c.Fingerprint("cmd/filter.go", "filterFunction")
+		c.Fingerprint(rel, "StrLen")
 		c.Fingerprint(rel, "WrapIndices")
 		c.Fingerprint("pkg/extractor/sliceSpaceExpressionContext.go", "SliceSpaceExpressionContext.GetMatch")
 		c.Fingerprint("pkg/extractor/sliceSpaceExpressionContext.go", "SliceSpaceExpressionContext.GetKey")
